@@ -4,6 +4,7 @@ package snaps
 
 import (
 	"bytes"
+	"encoding/json"
 	"errors"
 	"fmt"
 	"os"
@@ -16,6 +17,7 @@ import (
 	"sync/atomic"
 
 	"github.com/gkampitakis/go-snaps/internal/vxrt"
+	"github.com/tidwall/gjson"
 )
 
 // pinned returns a string whose bytes are symbolic but constrained to equal
@@ -173,4 +175,25 @@ func H_selftest_lib() {
 	vxrt.Assert(os.RemoveAll(dir+"/sub") == nil && readFile(dir+"/sub/x.txt") == "<missing>" && os.RemoveAll(dir+"/sub") == nil, "selftest:os.RemoveAll")
 	names, _ := osReadDirNames(dir)
 	vxrt.Assert(len(names) == 1 && names[0] == "b.txt", "selftest:dir-after")
+}
+
+// H_selftest_json: encoding/json's scanner (Valid, Compact) interpreted from its SSA agrees with
+// the interpreted gjson validator on every byte string of the given length.
+func H_selftest_json() {
+	b := vxrt.Bytes("doc", vxrt.Len("doc-len", 0, vxrt.Param("n", 3)))
+	vxrt.Assert(json.Valid(b) == gjson.ValidBytes(b), "selftest:json.Valid-agrees-with-gjson")
+	var buf bytes.Buffer
+	err := json.Compact(&buf, []byte(` {"a" : [1, 2 ] } `))
+	vxrt.Assert(err == nil && buf.String() == `{"a":[1,2]}`, "selftest:json.Compact")
+}
+
+// H_selftest_minmax: the min/max built-ins on symbolic integers.
+func H_selftest_minmax() {
+	a := int(vxrt.Byte("a")) - 100
+	b := int(vxrt.Byte("b")) - 100
+	lo, hi := min(a, b), max(a, b, -5)
+	vxrt.Assert(lo <= a && lo <= b && (lo == a || lo == b), "selftest:min")
+	vxrt.Assert(hi >= a && hi >= b && hi >= -5 && (hi == a || hi == b || hi == -5), "selftest:max")
+	u := uint8(vxrt.Byte("u"))
+	vxrt.Assert(min(u, 200) <= 200 && max(u, 7) >= 7, "selftest:min-unsigned")
 }
